@@ -1,5 +1,7 @@
 """C06 — continuations, dynamic-wind, parameters, exceptions follow the R7RS model.
    (G) gen/c06_travel.py: travel-to-point! of lib/init-7.scm -> coq/Gen/C06_Travel.v (proofs are about that text)
+       gen/c06_shapes.py: dynamic-wind, continuation->procedure, call/cc, with-exception-handler, raise-continuable,
+       guard, parameterize are pinned to the text the machine mirrors by hand
    (T) coq/Properties_C06.v
    (K-inner) the real travel-to-point! (fetched from the (chibi) environment) on generated point trees
              vs the extracted SPEC wind_script and the extracted generated function
@@ -629,8 +631,9 @@ def run(ctx):
                        "non-trivial when it contains a throw/raise AND a wind/parameterize/handler/guard. Separately: travel-to-point! "
                        "itself on every extent tree with <= 4 (thorough 5) points and every (here,target) pair + random larger trees, "
                        "vs the SPEC wind_script.")
-    from gen import c06_travel
+    from gen import c06_travel, c06_shapes
     c06_travel.regen(ctx)
+    c06_shapes.check(ctx)          # the hand-mirrored Scheme definitions still have the mirrored text
     ctx.coq_obligations("Properties_C06")
     d = ctx.build("default")
     exe = ctx.extract("C06")
